@@ -74,6 +74,20 @@ func (a *Atoms) Cond(e *PPA, st *State, rv RV) (bool, bool) {
 		default:
 			return false, false
 		}
+		// `for … range s` with a known len(s): the k-th evaluation of the loop test
+		// (rangeindex+1 < len(s)) is true iff k <= len(s)
+		if v.Op == token.LSS {
+			if inc, ok := v.X.(*ssa.BinOp); ok && inc.Op == token.ADD {
+				if phi, ok := inc.X.(*ssa.Phi); ok && phi.Comment == "rangeindex" && phi.Block() == v.Block() {
+					if one, ok := constInt(inc.Y); ok && one == 1 {
+						if n, ok := a.intOf(e, st, RV{rv.F, v.Y}, 0); ok && rv.F != nil {
+							k := st.visits[[2]int{rv.F.ID, v.Block().Index}]
+							return int64(k) <= n, true
+						}
+					}
+				}
+			}
+		}
 		x := e.Resolve(st, RV{rv.F, v.X})
 		y := e.Resolve(st, RV{rv.F, v.Y})
 		cx, cy := a.Class(e, st, x), a.Class(e, st, y)
@@ -112,6 +126,12 @@ func (a *Atoms) Cond(e *PPA, st *State, rv RV) (bool, bool) {
 				}
 			}
 		}
+		// sums / differences of integer atoms and constants
+		if ix, ok := a.intOf(e, st, x, 0); ok {
+			if iy, ok := a.intOf(e, st, y, 0); ok {
+				return cmpInt(v.Op, ix, iy)
+			}
+		}
 	case *ssa.Call:
 		// time.Time ordering methods on classified operands
 		name := calleeName(&v.Call)
@@ -137,6 +157,36 @@ func (a *Atoms) Cond(e *PPA, st *State, rv RV) (bool, bool) {
 		}
 	}
 	return false, false
+}
+
+// intOf evaluates an integer expression over integer atoms and constants (+, -).
+func (a *Atoms) intOf(e *PPA, st *State, rv RV, d int) (int64, bool) {
+	if d > 6 {
+		return 0, false
+	}
+	r := e.Resolve(st, rv)
+	if c, ok := constInt(r.V); ok {
+		return c, true
+	}
+	if name := a.Class(e, st, r); name != "" {
+		if iv, ok := a.Int[name]; ok {
+			return iv, true
+		}
+	}
+	if b, ok := r.V.(*ssa.BinOp); ok && (b.Op == token.ADD || b.Op == token.SUB) {
+		if _, isPhi := b.X.(*ssa.Phi); isPhi {
+			return 0, false // loop counters are not atoms
+		}
+		x, okx := a.intOf(e, st, RV{r.F, b.X}, d+1)
+		y, oky := a.intOf(e, st, RV{r.F, b.Y}, d+1)
+		if okx && oky {
+			if b.Op == token.ADD {
+				return x + y, true
+			}
+			return x - y, true
+		}
+	}
+	return 0, false
 }
 
 // rootOf strips field/index/type-assert/extract/call-receiver wrappers to find where a value comes from.
